@@ -160,12 +160,17 @@ def case_numeric(case):
     indict = case["indict"]
     res = odetoolbox.analysis(json.loads(json.dumps(indict)), disable_stiffness_check=True)
     sol = [s for s in res if s["solver"] == "analytical"][0]
+    marker = indict.get("options", {}).get("differential_order_symbol", "__d")
     svars = sol["state_variables"]
     out = {"vars": svars, "queries": []}
     # reference: x' = A x (+ b) from the *input* equations, solved by mpmath matrix exponential piecewise
     from harness.core import refsol
-    ref = refsol.Reference(indict)
+    ref = refsol.Reference(indict, marker=marker)
     h = case["history"]
+    try:
+        AnalyticIntegrator(sol, {}, enable_caching=True).get_value(0.5)
+    except BaseException as e:
+        return {"construct_error": type(e).__name__ + ": " + str(e)[:200], "options": indict.get("options")}
     ai = AnalyticIntegrator(sol, {k: list(v) for k, v in h["spike_times"].items()}, enable_caching=h["enable_caching"])
     ai2 = AnalyticIntegrator(sol, {k: list(v) for k, v in h["spike_times"].items()}, enable_caching=not h["enable_caching"])
     for op in h["ops"]:
@@ -190,6 +195,9 @@ NUMERIC_SYSTEMS = [
     {"dynamics": [{"expression": "x' = -x / tau + y", "initial_value": "0.3"}, {"expression": "y' = -y / tau2", "initial_value": "1.5"}], "parameters": {"tau": "0.7", "tau2": "0.3"}},
     {"dynamics": [{"expression": "u' = v", "initial_value": "1"}, {"expression": "v' = -2 * u - 3 * v", "initial_value": "0.5"}]},
     {"dynamics": [{"expression": "z' = -z / tau + 2.5", "initial_value": "1"}], "parameters": {"tau": "0.4"}},
+    {"dynamics": [{"expression": "z' = -z / tau", "initial_value": "1"}], "parameters": {"tau": "0.4"}, "options": {"output_timestep_symbol": "dt"}},
+    {"dynamics": [{"expression": "I'' = -I / tau**2 - 2 * I' / tau", "initial_values": {"I": "0", "I'": "e / tau"}}], "parameters": {"tau": "0.5"},
+     "options": {"differential_order_symbol": "_D", "output_timestep_symbol": "step"}},
 ]
 
 
@@ -239,10 +247,10 @@ def run(ctx, driver):
     # ---- numeric oracle on real dictionaries
     rng = ctx.rng("numeric")
     cases = []
-    for i in range(8 if quick else 80):
+    for i in range(12 if quick else 90):
         indict = NUMERIC_SYSTEMS[i % len(NUMERIC_SYSTEMS)]
         h = gen_history(rng)
-        svars = {"I": ["I", "I__d"], "x": ["x", "y"], "u": ["u", "v"], "z": ["z"]}[indict["dynamics"][0]["expression"][0]]
+        svars = {"I": ["I", "I" + indict.get("options", {}).get("differential_order_symbol", "__d")], "x": ["x", "y"], "u": ["u", "v"], "z": ["z"]}[indict["dynamics"][0]["expression"][0]]
         m = dict(zip(["I", "I__d"], svars + svars))
         h["spike_times"] = {m[k]: v for k, v in h["spike_times"].items()}
         cases.append({"indict": indict, "history": h})
@@ -255,6 +263,9 @@ def run(ctx, driver):
         if res.get("harness_error"):
             ctx.count("numeric_harness_error")
             ctx.cov.setdefault("harness_errors", []).append(res["harness_error"][:300])
+            continue
+        if res.get("construct_error"):
+            ctx.fail("dictionary-not-integrable", case, {"error": res["construct_error"], "signature": {"site": "AnalyticIntegrator.__init__", "custom_timestep_symbol": "output_timestep_symbol" in (res.get("options") or {})}})
             continue
         ctx.count("numeric_cases")
         ctx.note_nontrivial(json.dumps(case, sort_keys=True))
